@@ -30,7 +30,8 @@ type Program struct {
 	ModFuncs []*ssa.Function          // all module functions incl. closures, sorted by key
 	Scanned  []*ssa.Function          // module functions that rules scan (not generated, not testutils)
 
-	cg *CallGraph
+	cg        *CallGraph
+	callerIdx *callerIndex
 }
 
 // Load type-checks ./pkg/... of repo (no tests) and builds SSA for the whole
